@@ -886,12 +886,15 @@ impl<'a> Runner<'a> {
         let max = self.n() + 6;
         self.rig.begin_op();
         let inj0 = self.rig.src.borrow().injected.len();
+        let pol0 = self.rig.pol.borrow().calls.len();
         let res = guarded(move || reader.into_records_all(max));
         let obs = match res {
             Ok(o) => o,
             Err(c) => return self.caught(c),
         };
         let injected = self.rig.src.borrow().injected.len() - inj0;
+        let refused = self.rig.pol.borrow().calls[pol0..].iter().filter(|c| c.2.is_none()).count();
+        self.check_policy_calls(pol0, None);
         self.trace.push(format!("into_records -> {} answers", obs.len()));
         let mut saw_io = false;
         for o in obs {
@@ -931,7 +934,7 @@ impl<'a> Runner<'a> {
                             }
                         }
                     }
-                    self.on_error(&e, injected, 0);
+                    self.on_error(&e, injected, refused);
                 }
                 Obs::End => {
                     if !self.degraded {
